@@ -17,10 +17,10 @@ CLAIMS = {
 
 COMPILE_NOTE = ('Trusted: the component protocol contracts (pyvc/models/components.py) for user callbacks, network '
                 'readers and PyPackageSearcher; distinct component objects; debug logging off; keys of the status maps are '
-                'str.  The bookkeeping clauses are proved for histories in which every fetched file holds exactly one '
-                'module named like the request (known finding D21/D13 otherwise); exception freedom, status values, '
-                'write-once, payload identity and the failure gate are proved for all histories.  Termination of the '
-                'discovery loop is not decided.')
+                'str.  The parsed-xor-failed bookkeeping clauses are proved for histories in which every fetched file holds '
+                'exactly one module named like the request (open known finding D21 otherwise, printed as KNOWN-FINDING); '
+                'exception freedom, status values, write-once, payload identity, the failure gate, import closure, '
+                'fetch-once, source order and the termination step are proved for all histories.')
 CLAIMS.update({
     'C07': ('proof',
             'MibCompiler.compile is symbolically executed once against adversarial protocol contracts of all seven '
@@ -34,6 +34,18 @@ CLAIMS.update({
             'failures or with ignoreErrors, and then every built module is handed over exactly once.',
             COMPILE_NOTE, '5 C07-C10,C19'),
 })
+CLAIMS['C08'] = ('proof',
+    'The discovery loops of compile() carry inductive invariants for all import graphs and all outcome assignments: '
+    'closure (every import of a parsed module and every requested name is parsed, failed, looked up or still queued; '
+    'at return every one has a status or was resolved to modules that have one), fetch-once (a name is looked up at '
+    'most once, a look-up asks every source at most once), source order (the n-th request of a look-up goes to '
+    'self._sources[n]; the next source is asked only after not-found or a failed text; missing only after all sources; '
+    'the parser gets the text the source returned) and termination (step clause: an iteration shortens the work list or '
+    'looks up a new name of the finite universe; cvc5 finite-set cardinality lemma closes the lexicographic argument). '
+    'SymtableCodeGen.genImports is verified to report every module of the IMPORTS clause in MibInfo.imported.',
+    COMPILE_NOTE + ' Termination assumes a finite universe U of module names the sources can mention (ghost set; the '
+    'symbol-table model promises imports lie in U) - with infinitely many distinct names no work-list algorithm '
+    'terminates. Inner for-loops iterate over sequences their bodies do not modify.', '5 C07-C10,C19')
 CLAIMS['C13'] = ('proof',
     'FileWriter.putData, PyFileWriter.putData and CallbackWriter.putData are executed symbolically against an OS model '
     'in which every system call may fail (and os.write may fall short) adversarially; atomicity, temp-file cleanup, '
